@@ -153,6 +153,14 @@ func mkReqC(carrier, method, ctype, rawq, body string, hdr [][2]string) (r *http
 		r.Body = io.NopCloser(struct{ io.Reader }{strings.NewReader(body)})
 		r.ContentLength = -1
 		r.TransferEncoding = []string{"chunked"}
+	case "cut", "cutend":
+		// NOT a carrier of the protocol (never in an op): a connection that breaks - half of the body (cut) or all of it
+		// (cutend) is delivered, then Read fails.  Used by the API-layer oracle of runBind only.
+		k := len(body)
+		if carrier == "cut" {
+			k /= 2
+		}
+		r.Body = io.NopCloser(io.MultiReader(strings.NewReader(body[:k]), bindFailReader{}))
 	case "newreq":
 		nr, err := http.NewRequest("POST", "http://example.test/p", bytes.NewReader([]byte(body)))
 		if err != nil {
@@ -195,6 +203,11 @@ func mkReqC(carrier, method, ctype, rawq, body string, hdr [][2]string) (r *http
 	}
 	return r, true
 }
+
+// bindFailReader fails every Read (the rest of a body whose connection broke)
+type bindFailReader struct{}
+
+func (bindFailReader) Read([]byte) (int, error) { return 0, io.ErrUnexpectedEOF }
 
 // carrierOK: may this bind travel by this carrier (decided from the inputs and net/http only, never from rux)
 func carrierOK(carrier, api, method, ctype, rawq, body string, hdr [][2]string) bool {
@@ -474,6 +487,31 @@ func runBind(carrier string, f []string) (ans string, oracle []string) {
 		if ans2 != ans {
 			oracle = append(oracle, fmt.Sprintf("C18 source: bind through %s (method %q, Content-Type %q) answers %q, and %q once the named binders json and xml are removed from the registry", api, method, ctype, ans, ans2))
 		}
+	}
+	// a body that cannot be read to its end is malformed input.  For a url-encoded form on a body method net/http's
+	// ParseForm reports the read error, so the bind fails - through the binding package and through the Context
+	// methods, which ARE those calls on c.Req (a Context method must not succeed with the part that did arrive).
+	// Half of the body arrives (cut), or all of it and then an error instead of EOF (cutend).
+	// (Only this source: JSON/XML decoders stop reading at the end of the value, multipart readers at the final
+	// boundary; formam's answer for keys that differ in case only depends on map order.)
+	if mt, _, merr := mime.ParseMediaType(ctype); merr == nil && mt == "application/x-www-form-urlencoded" && isBodyMethod && carrier == "rd" && body != "" {
+		apis := []string{}
+		switch {
+		case (api == "auto" || api == "pkgbind" || api == "pkgmust" || api == "ctxbind" || api == "ctxauto") && strings.Contains(ctype, "/x-www-form-urlencoded"):
+			// (Auto looks for the lower-case spelling; with another spelling it takes another source)
+			apis = []string{"auto", "ctxbind", "ctxauto"}
+		case strings.HasPrefix(api, "form.") && api != "form.vals":
+			apis = []string{"form.bind", "form.should", "form.must", "form.ctx"}
+		}
+		for _, cut := range []string{"cut", "cutend"} {
+			for _, ap := range apis {
+				setValidator(val)
+				if a1 := callBind(cut, ap, method, ctype, rawq, body, hdr, &bT{}); a1 != "err" && a1 != "panic:err" {
+					oracle = append(oracle, fmt.Sprintf("C18 malformed input: a url-encoded body that breaks off (%s, %d bytes, method %q, Content-Type %q) bound through %s answers %q", cut, len(body), method, ctype, ap, a1))
+				}
+			}
+		}
+		setValidator(val)
 	}
 	if cv != nil {
 		if ok && cv.calls != 1 {
